@@ -23,11 +23,16 @@
      [accepts_prefix]) and a continuation-passing backtracking matcher [bt]
      that explores parses in CPython's order (left alternative first,
      greedy loops) and returns the captures of the first parse found;
-   * a fuelled recursive-descent parser [parse_regex] from the pattern text.
+   * a fuelled recursive-descent parser from the pattern text to a surface
+     syntax [sre] (quantifiers kept, groups not yet numbered; [parse_sre]),
+     then [lower]: numbering of the groups by opening parenthesis and
+     expansion of the quantifiers; [parse_regex] is the composition plus the
+     check that no name is used for two groups.
      It fails closed ([None]) on everything outside the subset (^, \b, \A,
      back-references, look-around, lazy/possessive quantifiers, flags,
-     literal ] } {, quantified sub-expressions that can match the empty
-     string -- CPython's treatment of empty loop iterations is not modelled).
+     literal ] } {, group names that are not ASCII identifiers, quantified
+     sub-expressions that can match the empty string -- CPython's treatment
+     of empty loop iterations is not modelled).
    Proofs are in proofs/RegexProofs.v. *)
 From Coq Require Import ZArith List Bool.
 Require Import PW.lib.Val.
